@@ -169,6 +169,8 @@ PROPS["C09"] = {
 }
 
 PROPS["C08"]["runs"] += [
+    R("h264-count", "pkg/format/rtph264", "pkg/format/rtph264", ["ZzC08H264Count"]),
+    R("h265-count", "pkg/format/rtph265", "pkg/format/rtph265", ["ZzC08H265Count"]),
     R("mpeg1audio-hostile", "pkg/format/rtpmpeg1audio", "pkg/format/rtpmpeg1audio", ["ZzC08MPEG1AudioHist"], extras=ST("rtpmpeg1audio"), quick_params={"K": 1, "P": 60}, thorough_params={"K": 2, "P": 60}),
     R("ac3-hostile", "pkg/format/rtpac3", "pkg/format/rtpac3", ["ZzC08AC3Hist"], extras=ST("rtpac3"), quick_params={"K": 1, "P": 136}, thorough_params={"K": 2, "P": 136}),
     R("mjpeg-hostile", "pkg/format/rtpmjpeg", "pkg/format/rtpmjpeg", ["ZzC08MJPEGHist"], extras=ST("rtpmjpeg"), quick_params={"K": 1, "P": 14}, thorough_params={"K": 2, "P": 14}),
